@@ -199,14 +199,18 @@ class RunBundler:
             exit_status=exit_status,
             reason=reason,
         )
-        await self.emit(DocumentNames.stop, doc)
+        try:
+            await self.emit(DocumentNames.stop, doc)
+        finally:
+            # The RunStop has been composed and handed out.  Also when a subscriber chokes on it
+            # (the error goes to the plan): the run is over, nothing may follow its RunStop.
+            self.run_is_open = False
         doc_logger.debug(
             "[stop] document is emitted (run_uid=%r)",
             self._run_start_uid,
             extra={"doc_name": "stop", "run_uid": self._run_start_uid},
         )
         await self.reset_checkpoint_state_coro()
-        self.run_is_open = False
         return doc["run_start"]
 
     async def _prepare_stream(
